@@ -35,7 +35,7 @@ PROPS = {
                 trust=["packages.Load returns exactly the files present"]),
     "C16": dict(module="MoqModel.Props.C16", stages=["corr"], oracles=["C16"],
                 trust=["go/format idempotence and comment preservation, goimports leaves an import-exact file alone (theorem hypotheses, checked dynamically)"]),
-    "C17": dict(module="MoqModel.Props.C17", stages=["cli"], oracles=["C17"],
+    "C17": dict(module="MoqModel.Props.C17", stages=["cli", "corr"], oracles=["C17"],
                 trust=["a write that fails after a successful open is not modelled"]),
     "C18": dict(module="MoqModel.Props.C18", stages=["cli"], oracles=["C18"],
                 trust=["go list writes only to GOCACHE when go.mod/go.sum are complete"]),
@@ -54,6 +54,7 @@ CORR_PROPS = ["C01", "C02", "C03", "C04", "C05", "C06", "C07", "C08", "C09", "C1
 FACTS = {p: ["template", "extractor"] for p in CORR_PROPS}
 for p in ("C15", "C17", "C18"):
     FACTS[p] = ["extractor"]
+
 FACTS["C11"] += ["tables.replacer", "tables.vendor"]
 FACTS["C10"] += ["tables.vendor"]
 FACTS["C12"] += ["tables.reserved", "tables.suffix", "tables.outSuffix"]
